@@ -40,7 +40,10 @@ def tied_conditionals(rng, ty, i):
         e = (6 + rng.below(11)) if ty == "f64" else (4 + rng.below(4))
         return num.rnd(ty, 10.0 ** -e * (0.5 + rng.unit()))
     x = G.float_bop(rng, ty, a_open=True) if rng.chance(1, 2) else G.grid_bop(rng, 8, a_open=True)
-    case2 = i % 2 == 0
+    mode = i % 4                    # 0: Case II tie, 1: Case III tie, 2 / 3: Case I with one component tied (see below)
+    if mode >= 2:
+        return tied_case_one(rng, ty, x, mode == 2, small)
+    case2 = mode == 0
     hot = rng.chance(2, 3)          # Case III: the sign is open only for small a_x, small a_y and a non-dyadic tied mass
     if hot or rng.chance(1, 2):
         x[3] = small()
@@ -71,11 +74,42 @@ def tied_conditionals(rng, ty, i):
     return x + c0 + c1 + [ay]
 
 
+def tied_case_one(rng, ty, x, d_tied, small):
+    """Case I with one component tied: d(y|x) = d(y|~x) and b(y|x) < b(y|~x) (d_tied), or b tied and d(y|x) < d(y|~x).
+    K = 0 by the case split alone; a classification that sends the tie to Case III resp. II meets an A/B threshold
+    difference (1 - a_y)(1 - a_x)(b1 - b0) resp. a_y (1 - a_x)(d1 - d0), drawn here below one ulp, and a zero divisor."""
+    t = rng.choice([0.0, 0.0, 0.125, num.rnd(ty, 0.4 * rng.unit())])
+    if t in (0.0, 0.125) and rng.chance(1, 2):
+        k = sorted(rng.below(int((1 - t) * 64) + 1) for _ in range(2))
+        if k[0] == k[1]:
+            return None
+        lo, hi = k[0] / 64.0, k[1] / 64.0
+        ulo, uhi = 1.0 - t - lo, 1.0 - t - hi
+    else:
+        lo, hi = sorted(num.rnd(ty, (1 - t) * rng.unit()) for _ in range(2))
+        if lo == hi:
+            return None
+        ulo, uhi = num.rnd(ty, num.rnd(ty, 1.0 - t) - lo), num.rnd(ty, num.rnd(ty, 1.0 - t) - hi)
+        if ulo < 0 or uhi < 0:
+            return None
+    x = list(x)
+    x[3] = num.rnd(ty, 1.0 - small()) if rng.chance(2, 3) else x[3]
+    if d_tied:
+        c0, c1 = [lo, t, ulo], [hi, t, uhi]
+        ay = num.rnd(ty, 1.0 - small()) if rng.chance(2, 3) else num.rnd(ty, 0.02 + 0.96 * rng.unit())
+    else:
+        c0, c1 = [t, lo, ulo], [t, hi, uhi]
+        ay = small() if rng.chance(2, 3) else num.rnd(ty, 0.02 + 0.96 * rng.unit())
+    if not in_domain(x, ay):
+        return None
+    return x + c0 + c1 + [ay]
+
+
 def gen(rng, tier):
     out = []
     n = 2500 if tier == "quick" else 150000
     for ty in ("f64", "f32"):
-        for i in range(400 if tier == "quick" else 40000):
+        for i in range(800 if tier == "quick" else 60000):
             nums = tied_conditionals(rng, ty, i)
             if nums is not None:
                 out.append(Case("bdeduce", ty, "bi", "-", [], nums, tag="tied_conditionals", meta={"branch": branch(nums)}))
